@@ -34,9 +34,17 @@ class ExprMixin:
             r = self.cur[0].expr_rules.get(ast.unparse(node))
             if r is not None:
                 self.note('rule', (getattr(node, 'lineno', 0), ast.unparse(node)[:70], 'expression rule: ' + str(r)))
-                kind, _, t = r.partition(':')
                 from .vals import parse_type
-                return k(st, fresh_val(parse_type(t), 'expr', st))
+                out = []
+                if isinstance(r, dict):            # {'type': T, 'raises': [...]}: any value of T, or one of the exceptions
+                    for exc in r.get('raises', []):
+                        s2 = st.copy()
+                        s2.path.append('expr!%s@%s' % (exc, getattr(node, 'lineno', 0)))
+                        out += self.raise_(s2, exc)
+                    t = r['type']
+                else:
+                    kind, _, t = r.partition(':')
+                return out + k(st, fresh_val(parse_type(t), 'expr', st))
         return m(node, st, k)
 
     def ev_list(self, nodes, st, k, acc=()):
@@ -404,6 +412,12 @@ class ExprMixin:
                 return k(s, v)
             out = []
             for s2, taken in self.branch(s, self.truth(v, s), 'bool@%s' % nodes[0].lineno):
+                if taken and is_and and isinstance(nodes[0], ast.Name) and isinstance(v, VOpt) and not self.spec:
+                    fid = s2.fid                      # ``x and f(x)``: on this path x is not None -- it is its value
+                    while fid is not None and nodes[0].id not in s2.frames[fid]:
+                        fid = s2.frames[fid].get('__parent__')
+                    if fid is not None:
+                        s2.frames[fid][nodes[0].id] = v.inner
                 if taken == is_and:
                     out += self.boolop_seq(nodes[1:], is_and, s2, k)
                 else:
